@@ -373,7 +373,8 @@ def _expected_supp(sp):
 
 def _proj_ref(sp):
     """Projection of a species decoded by the reference parser."""
-    return dict(name=sp['name'], phase=sp['phase'], elements=sorted([s, n] for s, n in sp['elements'] if n != 0),
+    # zero counts are NOT filtered here: the statement says zero-count entries are omitted from the file
+    return dict(name=sp['name'], phase=sp['phase'], elements=sorted([s, n] for s, n in sp['elements']),
                 T=[sp['T_low'], sp['T_mid'], sp['T_high']], a=list(sp['a_high']) + list(sp['a_low']))
 
 
@@ -532,7 +533,8 @@ PLANNED_TAGS = ['name~END', 'name~THERMO', 'name:digit-first', 'name:len15', 'na
 
 C_L1 = 'layout: every line is a header/comment/END line or an 80-column record numbered 1-4 in column 80, in sequence'
 C_L2 = 'layout: fixed-column parser finds as many species in the text as were written'
-C_L3 = 'layout: names (col 1-), composition (col 25-44) and phase (col 45) decode to the written species, in order'
+C_L3 = ('layout: names (col 1-), composition (col 25-44, zero counts omitted) and phase (col 45) decode to the '
+        'written species, in order')
 C_L4 = 'layout: T bounds in columns 46-75 equal to 0.1 K'
 C_L5 = 'layout: 15-character coefficient fields carry the 14 coefficients to 9 significant digits'
 C_L6 = 'text returned without filename is the file image; newline option honoured'
